@@ -26,6 +26,8 @@ CONSTANTS
  FaultSets <- %(faults)s
  Checked = TRUE
  FlagFirst = TRUE
+ PipeCap = 99
+ JoinChecked = TRUE
 INVARIANT AtMostOnce
 INVARIANT ReturnedImpliesAll
 INVARIANT NoLossAtSet
@@ -45,6 +47,8 @@ CONSTANTS
  FaultSets <- %(faults)s
  Checked = TRUE
  FlagFirst = TRUE
+ PipeCap = 99
+ JoinChecked = TRUE
 INVARIANT AtMostOnce
 INVARIANT ReturnedImpliesAll
 INVARIANT Emit
@@ -150,12 +154,15 @@ class TransformStage(Stage):
         return lambda: transform._do_a_transform(None, self.depth, lambda: None, do_one, parallel=parallel)
 
 
+_MT_HOOK = {"index": {}, "cb": None, "installed": False}
+
+
 class MultiTanStage(Stage):
     """MultiTanProcessor.tile over a small FITS collection; the per-item hook is the sub-tiling's
     generate_populated_positions(), which the worker calls exactly once per input image."""
 
-    def __init__(self, ctx, n_images):
-        self.name = "multi_tan[%d images]" % n_images
+    def __init__(self, ctx, n_images, shape=(50, 60)):
+        self.name = "multi_tan[%d images of %dx%d]" % (n_images, shape[1], shape[0])
         self.key = "multi_tan"
         self.n = n_images
         self.dir = ctx.mkdtemp("mtan")
@@ -169,7 +176,7 @@ class MultiTanStage(Stage):
             w.wcs.crval = [10.0, 20.0]
             w.wcs.cd = [[-1e-3, 0], [0, 1e-3]]
             w.wcs.crpix = [40.5 - 30 * i, 30.5]
-            data = np.full((50, 60), float(i + 1), dtype=np.float32)
+            data = np.full(shape, float(i + 1), dtype=np.float32)
             p = os.path.join(self.dir, "in%d.fits" % i)
             fits.PrimaryHDU(data=data, header=w.to_header()).writeto(p)
             self.paths.append(p)
@@ -190,18 +197,21 @@ class MultiTanStage(Stage):
             bld = builder.Builder(pio)
             proc.compute_global_pixelization(bld)
             index = {id(d.sub_tiling): i for i, d in enumerate(proc._descs)}
-            orig = study.StudyTiling.generate_populated_positions
+            stage.key_of = lambda x: index.get(id(x[1].sub_tiling), -1)      # queue items are (image, description)
+            # the hook stays installed after this function returns or raises: in a simulated run the workers share this
+            # memory and may still be delivering items while the parent is already unwinding
+            _MT_HOOK["index"], _MT_HOOK["cb"] = index, (lambda i: stage._cb(i, log, faults))
+            if not _MT_HOOK["installed"]:
+                orig = study.StudyTiling.generate_populated_positions
 
-            def hooked(self_tiling):
-                i = index.get(id(self_tiling))
-                if i is not None:
-                    stage._cb(i, log, faults)
-                return orig(self_tiling)
-            study.StudyTiling.generate_populated_positions = hooked
-            try:
-                proc.tile(pio, parallel=parallel)
-            finally:
-                study.StudyTiling.generate_populated_positions = orig
+                def hooked(self_tiling):
+                    i = _MT_HOOK["index"].get(id(self_tiling))
+                    if i is not None:
+                        _MT_HOOK["cb"](i)
+                    return orig(self_tiling)
+                study.StudyTiling.generate_populated_positions = hooked
+                _MT_HOOK["installed"] = True
+            proc.tile(pio, parallel=parallel)
         return run
 
 
@@ -296,6 +306,8 @@ WPC_OF_OP = {"start": "idle", "is_set": "idle", "rlock": "ready", "poll": "locke
 def make_replay(stage, items, nw):
     idx = {it: i + 1 for i, it in enumerate(items)}
     log = []
+    _gkey = globals()["_key"]
+    _key = lambda x: getattr(stage, "key_of", _gkey)(x)      # noqa: E731 - resolved at use: the stage defines it when it runs
 
     def setup(S):
         S.step("main", "ok")                       # the parent starts running
@@ -316,18 +328,45 @@ def make_replay(stage, items, nw):
             p = S.pending(actor)
             if p is None or p[0] != opname:
                 raise KeyError("%s is at %r, spec action %s needs %s" % (actor, p, act, opname))
+        def joiner(S):
+            """The helper thread through which the parent waits for the queue's feeder (started on demand)."""
+            p = S.pending("main")
+            if p is None or p[0] != "join" or not str(p[1]).startswith("main/"):
+                raise KeyError("main is at %r, spec action %s needs the wait for the feeder thread" % (p, act))
+            if S.pending(p[1]) == ("start",):
+                S.step(p[1], "ok")
+            return p[1]
+
+        def raise_path(S, rec):
+            """check_workers found a dead worker: it sets the flag (one more step of the code) and raises."""
+            if rec["outcome"] == "raised" and (S.pending("main") or ("",))[0] == "event_set":
+                S.step("main", "ok")
         if act == "PPut":
             need("main", "put"); S.step("main", "ok")
         elif act == "PPutFull":
             need("main", "put"); S.step("main", "full_timeout")
+            raise_path(S, rec)
         elif act == "PClose":
             need("main", "close"); S.step("main", "ok")
         elif act == "PJoinThread":
-            need("main", "join_thread"); S.step("main", "ok")
+            p = S.pending("main")
+            if p is not None and p[0] == "join_thread":          # join_thread() called by the parent itself
+                S.step("main", "ok")
+            else:                                                # ... or by a helper thread the parent waits for
+                t = joiner(S)
+                need(t, "join_thread"); S.step(t, "ok")
+                S.step("main", "ok")
+        elif act == "PJoinThreadPoll":
+            joiner(S)
+            S.step("main", "join_timeout")
+            raise_path(S, rec)
         elif act == "PSetEv":
             need("main", "event_set"); S.step("main", "ok")
         elif act == "PJoinW":
-            need("main", "join"); S.step("main", "ok")
+            need("main", "join")
+            if str(S.pending("main")[1]).startswith("main/"):
+                raise KeyError("main still waits for the feeder thread, spec action PJoinW needs the join of a worker")
+            S.step("main", "ok")
         elif act == "Flush":
             S.step(feeder, "flush")
         elif act == "WSample":
@@ -391,7 +430,7 @@ def _key(x):
     return x
 
 
-def replay_stage(ctx, stage, nw, nbeh, depth, faultsets="NoFaults", judge_faults=False, keyprefix="C03"):
+def replay_stage(ctx, stage, nw, nbeh, depth, faultsets="NoFaults", judge_faults=False, keyprefix="C03", pipecap=99):
     """Simulate the spec with the stage's real item count and queue capacity; replay each behaviour."""
     items = stage.items()
     # learn the capacity the code uses from a dry run
@@ -401,7 +440,7 @@ def replay_stage(ctx, stage, nw, nbeh, depth, faultsets="NoFaults", judge_faults
     if not cap or len(out0.maxsizes) != 1:
         ctx.drift("%s does not use exactly one bounded multiprocessing.Queue any more (%s); spec replay skipped" % (stage.name, out0.maxsizes))
         return 0
-    cfg = SIMCFG % dict(n=len(items), w=nw, cap=cap, faults=faultsets)
+    cfg = (SIMCFG % dict(n=len(items), w=nw, cap=cap, faults=faultsets)).replace("PipeCap = 99", "PipeCap = %d" % pipecap)
     r = ctx.tlc("WorkQueueSim", cfg_text=cfg, simulate=nbeh, depth=depth, workers=1, timeout=300)
     behs = parse_sim_stream(r.json_lines("TR"), ["faults"])
     okc = 0
@@ -522,7 +561,7 @@ def real_leaf_run(ctx, depth, parallel, accept=None):
         idx = {it: i + 1 for i, it in enumerate(ref)}          # producer order = serial order
         trace = [[k, idx.get(pos, 0), pids.index(pid) + 1] for _t, k, pos, pid in ev]
         mod = tla.module("TraceConf", ["WorkQueueTrace"], [("NoFaults", "{{}}"), ("TraceSeq", tla.lit(trace))])
-        cfg = ("SPECIFICATION TSpec\nCONSTANTS\n NItems = %d\n NW = %d\n Cap = %d\n FaultSets <- NoFaults\n Checked = TRUE\n FlagFirst = TRUE\n Trace <- TraceSeq\n"
+        cfg = ("SPECIFICATION TSpec\nCONSTANTS\n NItems = %d\n NW = %d\n Cap = %d\n FaultSets <- NoFaults\n Checked = TRUE\n FlagFirst = TRUE\n PipeCap = 99\n JoinChecked = TRUE\n Trace <- TraceSeq\n"
                "INVARIANT NotExplained\nINVARIANT AtMostOnce\nINVARIANT Bounded\nCHECK_DEADLOCK FALSE\n" % (len(ref), parallel, 2 * parallel))
         r = ctx.tlc("TraceConf", extra={"TraceConf.tla": mod}, cfg_text=cfg, expect_violation=True, timeout=900, count=False)
         if r.violated == "NotExplained":
@@ -545,6 +584,9 @@ def run(ctx):
             [dict(n=4, w=2, cap=2), dict(n=4, w=2, cap=1), dict(n=3, w=3, cap=2), dict(n=5, w=2, cap=4), dict(n=4, w=3, cap=6), dict(n=3, w=3, cap=1)]
     for c in confs:
         ctx.tlc("MCWorkQueue", cfg_text=CFG % dict(c, faults="NoFaults"), timeout=1800)
+    # the OS pipe between feeder and workers: items larger than the pipe (PipeCap 0: images), a pipe of one item
+    for c, pc in ([(confs[0], 0), (confs[1], 1)] if q else [(c, pc) for c in confs[:4] for pc in (0, 1)]):
+        ctx.tlc("MCWorkQueue", cfg_text=(CFG % dict(c, faults="NoFaults")).replace("PipeCap = 99", "PipeCap = %d" % pc), timeout=1800)
     # (2) spec -> code replay
     l1 = [(1, 0, 0), (1, 1, 0), (1, 0, 1), (1, 1, 1)]
     acc5 = frozenset(l1[:2]) | {(2, 0, 0), (2, 1, 1), (2, 2, 0), (2, 3, 0), (2, 3, 1)}
@@ -569,8 +611,11 @@ def run(ctx):
         explore(ctx, st, 3, ["random", "flag-race", "starve-feeder"], 2 if q else 20)
     mt = MultiTanStage(ctx, 3)
     mw = MultiWcsStage(ctx, 3)
-    for st in (mt, mw):
+    # images larger than the OS pipe (64 KiB): the feeder blocks in the middle of every write until a worker receives
+    mtbig = MultiTanStage(ctx, 4, shape=(150, 160))
+    for st in (mt, mw, mtbig):
         explore(ctx, st, 2, ["random", "flag-race", "starve-feeder", "eager-timeout"], 2 if q else 15)
+    replay_stage(ctx, mtbig, 2, 15 if q else 150, 150, pipecap=0)
     # (3b) a worker killed while it holds an item (negative exit status, e.g. the OOM killer): whatever else happens, the
     # stage must not RETURN NORMALLY with that item unprocessed (how the failure is reported is C19's subject)
     for st in [LeafStage("toast depth 2", 2), TransformStage(1), mt]:
